@@ -46,6 +46,14 @@ class _Return(Exception):
         self.v = v
 
 
+class _Continue(Exception):
+    pass
+
+
+class _Break(Exception):
+    pass
+
+
 class _Raised(Exception):
     """a Python exception the interpreted code would raise (ValueError from datetime(...)), catchable by an interpreted try"""
 
@@ -120,6 +128,22 @@ class MiniEval:
                 self.expr(st.value, env)
             elif isinstance(st, ast.Pass):
                 continue
+            elif isinstance(st, ast.For) and not st.orelse:
+                seq = self.expr(st.iter, env)
+                if isinstance(seq, _Unknown) or not isinstance(seq, (list, tuple, str, dict)):
+                    raise Undetermined('iteration over %s' % ast.unparse(st.iter)[:40])
+                for item in list(seq):
+                    self.assign(st.target, item, env)
+                    try:
+                        self.block(st.body, env)
+                    except _Continue:
+                        continue
+                    except _Break:
+                        break
+            elif isinstance(st, ast.Continue):
+                raise _Continue()
+            elif isinstance(st, ast.Break):
+                raise _Break()
             elif isinstance(st, ast.Try) and not st.finalbody:
                 try:
                     self.block(st.body, env)
@@ -305,10 +329,16 @@ class MiniEval:
                 raise Undetermined('subscript failed: %s' % ex)
         raise Undetermined('expression %s' % type(e).__name__)
 
+    call_hook = None     # optional callable(call node, evaluated args, env) -> (handled, value): stubs for collaborators
+
     def callexpr(self, e, env):
         f = e.func
         args = [self.expr(a, env) for a in e.args]
         kwargs = {k.arg: self.expr(k.value, env) for k in e.keywords if k.arg}
+        if self.call_hook is not None:
+            handled, value = self.call_hook(e, args, env)
+            if handled:
+                return value
         for x in list(args) + list(kwargs.values()):
             if isinstance(x, _Unknown):
                 raise Undetermined(x.why)
@@ -366,6 +396,7 @@ class MiniEval:
                         raise Undetermined('call depth')
                     sub = MiniEval(self.idx, target if f.value.id not in ('self', 'cls') else self.owner, self.resolver,
                                    self.depth + 1, self.globals)
+                    sub.call_hook = self.call_hook
                     return sub.call(fn, args)
             base = self.expr(f.value, env)
             if isinstance(base, str) and f.attr in _STR_METHODS:
@@ -375,6 +406,8 @@ class MiniEval:
                     raise Undetermined('str.%s failed: %s' % (f.attr, ex))
             if isinstance(base, (_dt.datetime, _dt.date)) and f.attr in _DT_METHODS:
                 return getattr(base, f.attr)(*args, **kwargs)
+            if isinstance(base, _dt.timedelta) and f.attr == 'total_seconds' and not args:
+                return base.total_seconds()
             if isinstance(base, dict) and f.attr == 'get':
                 return base.get(*args)
             raise Undetermined('call of %s' % ast.unparse(f)[:50])
